@@ -23,7 +23,10 @@ STUBBED_NAMES = base.STUBBED_NAMES
 ASSUMPTIONS = base.ASSUMPTIONS
 OUTSIDE = base.OUTSIDE + ["load paths given by anything other than a literal (module-level path variables are covered by C04 / C11)"]
 FUNCTIONS_ENCODED = base.FUNCTIONS_ENCODED + ["dds._api.load", "dds.structures_utils.FunctionIndirectInteractionUtils.*"]
-BOUNDS = {"quick": {}, "thorough": {}}
+BOUNDS = {
+    "quick": {"placements": ["inside a kept function", "top level of the evaluated function", "helper of a kept function", "path kept with dds.keep", "one function kept under two paths"], "producer": ["earlier in the same evaluation", "earlier evaluation", "revert history + explicit load", "later / never (rejected)"], "history": "2-5 steps", "leaf": "producer's tracked int, all 32-bit values, every step"},
+    "thorough": {"placements": "as quick x (body edit + revert after restart, three value steps)", "history": "up to 5 steps"},
+}
 LAST_DETAIL = [""]
 setup_query = base.setup_query
 
